@@ -16,7 +16,7 @@ ID = 'C15'
 BOUNDS = {
     'quick': 'stream length M in 0..3 records (0..4 for three output modes) (all header/particle patterns whose first record is a header), every record 9 free '
              'bytes; BoxSize>0, VelZSpace_to_kms free reals; posout/velout in {None, False, supplied}; float_dtype in {f4,f8}',
-    'thorough': 'as quick with M in 0..5',
+    'thorough': 'as quick with M in 0..7 (M >= 4 for the three representative selection modes, float32)',
 }
 OUTSIDE = 'streams longer than the bound (the per-record body carries only the header state and the write counter, both covered ' \
           'by an arbitrary-header start in the M>=2 patterns); float rounding (real model)'
@@ -293,7 +293,7 @@ R.set_global('_expand_to_short', _expand_checked)
 
 def items(tier, seed):
     out = [dict(name='expand', kind='expand'), dict(name='quantum', kind='quantum')]
-    Ms = range(0, 5) if tier == 'quick' else range(0, 6)
+    Ms = range(0, 5) if tier == 'quick' else range(0, 8)
     for fdt in ('f4', 'f8'):
         for pm in ('none', 'false', 'supplied'):
             for vm in ('none', 'false', 'supplied'):
